@@ -29,6 +29,14 @@ def gen(rng, n):
     norm = float(rng.uniform(0.05, 0.9)) if rng.random() < 0.85 else float(rng.uniform(0.9, 1.5))
     v = v / np.abs(v).sum() * norm
     eps = float(10 ** rng.uniform(-5, -2))
+    if n >= 2 and rng.random() < 0.25:
+        # tiny but non-zero interior coefficients together with a tight budget
+        klass += "/tiny-interior"
+        for i in rng.choice(np.arange(1, n), size=min(n - 1, int(rng.integers(1, 4))), replace=False):
+            v[int(i)] = float(rng.choice([-1, 1])) * float(10 ** rng.uniform(-7, -5))
+        if klass.startswith("symmetric"):
+            v = (v + v[::-1]) / 2
+        eps = float(10 ** rng.uniform(-5, -4.3))
     suc = float(1 - 10 ** rng.uniform(-5, -2))
     box = (np.abs(v).sum() <= 0.9) and n <= 12 and 1e-5 <= eps <= 1e-2 and 0.99 <= suc <= 1 - 1e-5
     return [float(x) for x in v], klass, eps, suc, bool(box)
@@ -67,9 +75,48 @@ def one(ctx, A, p, klass, eps, suc, box, bits_vec):
     ctx.extra["worst_bound_over_eps"] = max(ctx.extra.get("worst_bound_over_eps", 0.0), core.fl(v["bound"] / F(eps)))
     if not v["ok"]:
         replay["validator"] = line[:200]
+        w = witness(drv, p, eps, suc, ph)
+        replay["witness"] = w
+        if w:
+            ctx.violation("c07:budget", "|A(w)/suc - p(w)| >= eps at an exact point of the unit circle (proven lower bound %.3e, eps %.3e)" % (w["proven_lower_bound"], eps), replay)
+            return out
         ctx.violation("c07:budget", "max |A(w)/suc - p(w)| < eps is not certified for the returned phases (1-norm bound %.3e, eps %.3e)" % (core.fl(v["bound"]), eps),
                       replay, found_input=False)
     return out
+
+
+def witness(drv, p, eps, suc, ph):
+    """exact rational circle point w = cayley(t) where |A(w)/suc - p(w)| is provably >= eps"""
+    n = len(p) - 1
+    ks = np.arange(-n, n + 1, 2)
+    best, bt = -1.0, None
+    for t in np.linspace(0, 1, 401)[1:-1]:
+        for sx, sy in ((1, 1), (-1, 1)):        # first and second quadrant (lower half by conjugate symmetry)
+            a = sx * (1 - t * t) / (1 + t * t)
+            th = math.acos(max(-1.0, min(1.0, a)))
+            A = P.float_resp_wz(ph, a)[0, 0]
+            pv = np.dot(np.array(p), np.exp(1j * th * ks))
+            dlt = abs(A / suc - pv)
+            if dlt > best:
+                best, bt = dlt, (sx, float(t))
+    if bt is None or best < eps * 0.5:
+        return None
+    sx, t = bt
+    tq = Fraction(t).limit_denominator(1 << 20)
+    tt = tq if sx == 1 else 1 / tq            # cayley(1/t) = (-Re, Im)
+    a = (1 - tt * tt) / (1 + tt * tt)
+    mo = drv.ask("resp Wz z %d %s %s" % (P.BITS, rs(a), rl(F(x) for x in ph)))
+    if mo.startswith("err:"):
+        return None
+    val, err = mo.split()
+    ar, ai = core.pcx(val)
+    pe = drv.ask("lp.evalc %s %s" % (core.lp_enc([F(c) for c in p], -n), rs(tt)))
+    pr_, pi_ = core.pcx(pe)
+    dr, di = ar / F(suc) - pr_, ai / F(suc) - pi_
+    low = max(abs(dr), abs(di)) - pr(err) / F(suc) - Fraction(1, 2 ** 60)
+    if low >= F(eps):
+        return {"t": str(tt), "a": core.fl(a), "proven_lower_bound": core.fl(low), "eps": eps}
+    return None
 
 
 def root_signature_c07(p, eps, suc):
